@@ -53,14 +53,79 @@ def run(ctx):
     conc(ctx, "l1-conc", "l1conc", n1, ["-rounds", str(rounds), "-clients", "4"])
     if ctx.cov["counters"].get("l0conc_histories", 0) == 0 or ctx.cov["counters"].get("l1conc_histories", 0) == 0:
         raise vf.Infra("vacuous: no concurrent history")
+    l2_part(ctx)
     q.run_plan(ctx, plan, RULE, assumptions=[
         "concurrent histories are sampled (free-running goroutines), not enumerated; the clock moves only at quiescent barriers",
         "by-filter operator mutations are not part of the concurrent alphabet (select-then-update in SQLite; C14 is sequential)",
         "long-poll waiting is disabled by the tracing decorator (MaxWait forced to 0)"])
 
 
+# workloads of the restart part: messages are leased (and partly settled) when the process dies
+HELD = [{"op": "ingress", "route": "pull"}, {"op": "ingress", "route": "pull"}, {"op": "publish", "route": "pull", "n": 3},
+        {"op": "dequeue", "batch": 3}, {"op": "ack"}, {"op": "ingress", "route": "fan"}, {"op": "dequeue", "batch": 1}]
+
+
+def l2_part(ctx):
+    """A lease survives a restart: the REAL binary (SQLite on disk, push and pull routes, dispatcher active) is killed or left
+    alone after a workload that leaves leases with the consumer, restarted at once on the same files, and polled while those
+    leases certainly still run (lease 3 s, granted by an answered dequeue, not settled): none of their messages may be in the
+    answer.  CrashTrace, check lease_survives_restart."""
+    import random
+    from checks import c01
+    binp = vf.build_repo_binary(os.path.join(vf.BUILD, "hookaido-verif"))
+    rnd = random.Random(ctx.seed)
+    jobs = []
+    for i, w in enumerate((c01.LONE, HELD)):
+        jobs.append({"name": "lease-w%d-clean" % i, "ops": w, "crash": "", "kill_at_ms": 0, "hitlog": False, "early": True, "label": "clean"})
+        for k in range(3 if ctx.quick else 40):
+            jobs.append({"name": "lease-w%d-rand%d" % (i, k), "ops": w, "crash": "", "kill_at_ms": rnd.randint(30, 400), "hitlog": False, "early": True, "label": "random"})
+    out, _, info = c01.run_jobs(ctx, binp, jobs, "lease", vf.NCPU)
+    if info["errors"] > len(jobs) // 2:
+        raise vf.Infra("restart runs could not be executed: %s" % info)
+    r = vf.tv_run(ctx, [out], module="CrashTrace", name="tv-lease")[0]
+    if r["error"]:
+        raise vf.Infra("CrashTrace error: %s" % r["error"])
+    events = vf.load_trace(r["file"])
+    live = sum(e.get("live_held", 0) for e in events if e["ev"] == "Restart")
+    ctx.count("restart_runs", len(jobs))
+    ctx.count("leases_certainly_live_at_the_poll_after_restart", live)
+    ctx.cov["traces_validated_against_impl"] += len(jobs) - info["errors"]
+    ctx.cov["schedules_executed"] += len(jobs)
+    if live == 0:
+        ctx.notes.append("restart part: the restarts took longer than the 3 s leases (loaded machine): no lease was certainly live at the early poll")
+    byname = {j["name"]: j for j in jobs}
+    bad = sorted({vf.trace_of_line(events, line)[0] for (line, ev, check) in r["fails"] if check == "lease_survives_restart"})
+    for nm in bad[:2]:
+        job = byname[nm]
+        hit = False
+        for attempt in range(4):
+            o, _, _ = c01.run_jobs(ctx, binp, [job], "lease-repro", 1)
+            rr = vf.tv_run(ctx, [o], module="CrashTrace", name="tv-lease-repro")[0]
+            if any(c == "lease_survives_restart" for (_, _, c) in rr["fails"]):
+                hit = True
+                break
+        if not hit:
+            raise vf.Infra("lease_survives_restart in %s did not reproduce in 4 attempts" % nm)
+        ev = [e for e in events if e["ev"] == "Restart" and e.get("live_offered")][:1]
+        vf.report(ctx, "L2/restart/lease_survives_restart/" + job["label"],
+                  "after a restart of the real binary a message whose lease was still running was handed out again (run %s): %s" % (nm, json.dumps(ev)[:400]),
+                  {"layer": "L2", "job": job})
+
+
 def replay(ctx, path):
     obj = json.load(open(path))
+    if obj.get("layer") == "L2":
+        from checks import c01
+        vf.build_hkv()
+        binp = vf.build_repo_binary(os.path.join(vf.BUILD, "hookaido-verif"))
+        for attempt in range(4):
+            o, _, _ = c01.run_jobs(ctx, binp, [obj["job"]], "lease-replay", 1)
+            rr = vf.tv_run(ctx, [o], module="CrashTrace", name="tv-lease-replay")[0]
+            if any(c == "lease_survives_restart" for (_, _, c) in rr["fails"]):
+                vf.report(ctx, obj["sig"], "replayed: " + obj.get("text", ""), {"layer": "L2", "job": obj["job"]})
+                return
+        print("replay: lease survived the restart in 4 attempts")
+        return
     if "trace_file" in obj:
         r = q.lin_run(ctx, [obj["trace_file"]], name="lin-replay")[0]
         if r["accepted"]:
